@@ -1,6 +1,6 @@
 (* C03 -- the restraint object (C06 model of the repaired code + what the state file persists) is resumable. *)
 From Coq Require Import ZArith List Bool Lia.
-From CV Require Import Base.Num C03.ResumeModel C03.ResumeProofs C06.RestraintModel C06.RestraintSched C03.ObjectsModel.
+From CV Require Import Base.Num C03.ResumeModel C03.ResumeProofs C06.RestraintModel C06.RestraintSched C03.ObjectsModel C03.UsesC06.
 Import ListNotations.
 Local Open Scope Z_scope.
 
